@@ -291,6 +291,46 @@ def shrink_case(prop, case, sig, max_tests=3000, time_cap=40):
 # main entry
 
 
+def run_fuzz(pid, tier, seed):
+    """Runs vf.fuzz (atheris) in parallel processes with fresh corpus directories; returns an info dict with the
+    failing cases found.  Missing atheris = not explored (recorded), never an error."""
+    import glob
+    import shutil
+    import subprocess
+    import tempfile
+    nproc = 2 if tier == 'quick' else 8
+    runs = int(os.environ.get('VERIF_FUZZ_RUNS', 20000 if tier == 'quick' else 400000))
+    base = '/dev/shm' if os.path.isdir('/dev/shm') else None
+    work = tempfile.mkdtemp(prefix='vf-fuzz-%s-' % pid, dir=base)
+    info = {'engine': 'atheris/libFuzzer', 'processes': nproc, 'runs_per_process': runs, 'available': True, 'failures': []}
+    try:
+        procs = []
+        for i in range(nproc):
+            corpus = os.path.join(work, 'corpus%d' % i)
+            os.makedirs(corpus)
+            cmd = [sys.executable, '-m', 'vf.fuzz', pid, os.path.join(work, 'out'), '-runs=%d' % runs,
+                   '-seed=%d' % (seed * 100 + i + 1), '-max_len=%d' % (192 if i % 2 == 0 else 512), '-timeout=120', corpus]
+            procs.append(subprocess.Popen(cmd, cwd=VERIF, stdout=subprocess.DEVNULL, stderr=subprocess.PIPE))
+        units = 0
+        for i, p in enumerate(procs):
+            try:
+                _, err = p.communicate(timeout=3600)
+            except subprocess.TimeoutExpired:
+                p.kill()
+                err = b''
+            err = err.decode('utf-8', 'replace')
+            if 'No module named' in err and 'atheris' in err:
+                info['available'] = False
+            units += len(os.listdir(os.path.join(work, 'corpus%d' % i)))
+        info['corpus_units'] = units
+        for f in sorted(glob.glob(os.path.join(work, 'out', '*.json'))):
+            with open(f) as fh:
+                info['failures'].append(json.load(fh))
+    finally:
+        shutil.rmtree(work, ignore_errors=True)
+    return info
+
+
 def write_replay(pid, sig, case, detail, subdir='found'):
     d = os.path.join(REPLAY_DIR, subdir)
     os.makedirs(d, exist_ok=True)
@@ -476,6 +516,17 @@ def run_check(pid, tier, seed):
                 violations.append((sig, case, detail, None))
         prop.teardown_shard()
 
+    # 4b. coverage-guided sub-tier (atheris): the property's own check runs inside the fuzz target
+    fuzz_info = None
+    if getattr(prop, 'fuzz', False) and not os.environ.get('VERIF_NO_FUZZ'):
+        fuzz_info = run_fuzz(pid, tier, seed)
+        for r in fuzz_info.pop('failures'):
+            k = match_known(known, r['signature'])
+            if k:
+                known_hits[k['id']] += 1
+            elif not any(v[0] == r['signature'] for v in violations):
+                violations.append((r['signature'], r['case'], r['detail'], None))
+
     # 5. shrink + write replays for violations
     rc = 0
     out_lines = []
@@ -528,6 +579,8 @@ def run_check(pid, tier, seed):
         'budget_exhausted': budget_exhausted,
         'exhaustive': False,
     }
+    if fuzz_info is not None:
+        cov['coverage_guided_fuzzing'] = fuzz_info
     if notes:
         cov['notes'] = notes
     cov.update(prop.extra_evidence(tier) or {})
